@@ -1,8 +1,9 @@
 (* C03 model runner: one case per line on stdin, one result per line on stdout.
-   <id> FR <n> <limit> <start> <lister> <nf> <filters> <nodes> [#replay]   findRoots (lister: 1 = ReferrerLister source)
+   <id> FR <n> <limit> <start> <lister> <nf> <filters> <nodes> [#replay]   findRoots (lister: 1 = ReferrerLister source, c = caller-supplied FindPredecessors: the table is its output)
    <id> FP <n> <x> <lister> <nf> <filters> <nodes> [#replay]      opts.FindPredecessors(x)
+   <id> FE <n> <limit> <start> <lister> <k> <nf> <filters> <nodes> [#replay]   findRoots, k-th source operation fails
    <id> AT <kind> <hexmat> <hexmcfg>                              fetchArtifactType
-   <id> XC <resolves> <graphok> <tagok> <hexsrcref> <hexdstref>   ExtendedCopy wrapper
+   <id> XC <resolves> <rootsok> <copyok> <tagok> <hexsrcref> <hexdstref>   ExtendedCopy wrapper (result or error origin)
    filters: A0 | A <table> | N0 <hexkey> | N <hexkey> <table>;  table: hex=0|1,... or _
    node:    <kind> <hexmat> <hexmcfg> <ann> <np> (<pid> <hexat> <ann>)*
    ann:     ~ (nil) | @ (empty) | hexk=hexv;hexk=hexv *)
@@ -84,9 +85,30 @@ let () =
       let (fs, rest) = parse_filters (int_of_string nf) rest in
       let src = source_of (parse_nodes n rest) (lister = "1") in
       let node = { d_id = nat_of_int (int_of_string start); d_at = []; d_ann = None } in
-      (match find_roots (fuel_for src (nat_of_int n)) src fs (z_of_int (int_of_string limit)) node with
+      (* find_preds_g / find_preds_custom_g: the filters with the keep closures and fetch guards
+         re-read from the source (= find_preds / find_preds_custom, proved) *)
+      let fpf = if lister = "c" then find_preds_custom_g src src.s_preds fs
+                (* the served table is what the caller's own FindPredecessors returns *)
+                else find_preds_g src fs in
+      (* find_roots_run: the loop with the depth arithmetic re-read from findRoots (= find_roots_log, proved) *)
+      (match find_roots_run (fuel_for src (nat_of_int n)) fpf (z_of_int (int_of_string limit)) node with
        | None -> Printf.printf "%s FUEL\n" id
-       | Some roots ->
+       | Some (roots, calls) ->
+         let ids = List.sort_uniq compare (List.map (fun d -> int_of_nat d.d_id) roots) in
+         let show l = if l = [] then "-" else String.concat "," (List.map string_of_int l) in
+         (* roots as a set (rootMap order is Go map order), the FindPredecessors calls in call order *)
+         Printf.printf "%s OK %s %s\n" id (show ids) (show (List.map int_of_nat calls)))
+    | id :: "FE" :: n :: limit :: start :: lister :: k :: nf :: rest ->
+      (* findRoots with the k-th source operation failing *)
+      let n = int_of_string n in
+      let (fs, rest) = parse_filters (int_of_string nf) rest in
+      let src = source_of (parse_nodes n rest) (lister = "1") in
+      let node = { d_id = nat_of_int (int_of_string start); d_at = []; d_ann = None } in
+      (match find_roots_e (fuel_for src (nat_of_int n)) src fs (z_of_int (int_of_string limit)) node
+               (nat_of_int (int_of_string k)) with
+       | RFuel -> Printf.printf "%s FUEL\n" id
+       | RErr -> Printf.printf "%s ERR\n" id
+       | ROk roots ->
          let ids = List.sort_uniq compare (List.map (fun d -> int_of_nat d.d_id) roots) in
          Printf.printf "%s OK %s\n" id
            (if ids = [] then "-" else String.concat "," (List.map string_of_int ids)))
@@ -94,19 +116,23 @@ let () =
       let n = int_of_string n in
       let (fs, rest) = parse_filters (int_of_string nf) rest in
       let src = source_of (parse_nodes n rest) (lister = "1") in
-      let ps = find_preds src fs (nat_of_int (int_of_string x)) in
+      let ps = if lister = "c" then find_preds_custom_g src src.s_preds fs (nat_of_int (int_of_string x))
+               else find_preds_g src fs (nat_of_int (int_of_string x)) in
       Printf.printf "%s P%s\n" id
         (String.concat "" (List.map (fun d ->
            Printf.sprintf " %d:%s:%s" (int_of_nat d.d_id) (hex_of_str d.d_at) (show_ann d.d_ann)) ps))
     | [id; "AT"; kd; mat; mcfg] ->
       let src = source_of [ (kind_of kd, str_of_hex mat, str_of_hex mcfg, None, []) ] false in
       Printf.printf "%s T %s\n" id (hex_of_str (fetch_artifact_type src O))
-    | [id; "XC"; res; gok; tok; sref; dref] ->
+    | [id; "XC"; res; rok; gok; tok; sref; dref] ->
       let node = { d_id = nat_of_int 7; d_at = []; d_ann = None } in
       let resolve r = if res = "1" && r = str_of_hex sref then Some node else None in
-      (match extended_copy resolve (fun _ -> gok = "1") (tok = "1") (str_of_hex sref) (str_of_hex dref) [] with
-       | None -> Printf.printf "%s ERR\n" id
-       | Some (d, tags) ->
+      (match extended_copy_x resolve (rok = "1") (gok = "1") (tok = "1") (str_of_hex sref) (str_of_hex dref) [] with
+       | XErr OpResolve -> Printf.printf "%s ERR Resolve/source\n" id
+       | XErr OpFindPredecessors -> Printf.printf "%s ERR FindPredecessors/source\n" id
+       | XErr OpCopy -> Printf.printf "%s ERR copy\n" id
+       | XErr OpTag -> Printf.printf "%s ERR Tag/destination\n" id
+       | XOk (d, tags) ->
          Printf.printf "%s OK %s\n" id
            (String.concat "," (List.map (fun (k, v) -> hex_of_str k ^ "=" ^ string_of_int (int_of_nat v)) tags)))
     | [] -> ()
